@@ -86,6 +86,14 @@ CLAIMED["C03"] = dict(
     technique="Coq proof (unfolding of the signing pipeline, base64 round trip) + bit-exact correspondence and cross-verification with independent Gallina primitives (extracted and vm_compute/BigZ)",
 )
 
+CLAIMED["C13"] = dict(
+    category="proof",
+    text="Theorems in coq/Props/Properties_C13.v over an ARBITRARY abelian group with scalar action (Section hypotheses): ECDH role symmetry a.(b.P) = b.(a.P); the three ECMR modes (local private: multiplication; only remote private: addition; neither: local minus remote) on the model of ecmr.c; the McCallum-Relyea recovery (C+E, s.(C+E), minus e.S) = c.S = s.C for all c, s, e, P; the result object has exactly kty, crv, x, y; refusals (kty / alg / curve mismatch, ECDH without local d, deriveKey not granted, keys that cannot be imported) on the decision model jwk_exc with the two exchange algorithms as records. Tie: decisions through the extracted model; x/y of every successful exchange recomputed by the Gallina curve arithmetic over BigZ (vm_compute inside coqc) for P-256/384/521, both role orders, the full recovery protocol on the implementation's own intermediates, every mismatch combination; implementation-only oracle (symmetry, recovery identity, no d, fixed coordinate width).",
+    design_ref="DESIGN.md section 3 C13",
+    note="Coq kernel; no axioms in the theorems; NOT proved: that the named curves with this arithmetic form such a group (chord-tangent associativity) -- the concrete instance is validated by the correspondence; EC_KEY_check_key is modelled as on-curve + (with d) 1<=d<n and d.G=Q.",
+    technique="Coq proof over an abstract group (Section hypotheses) + correspondence with BigZ curve arithmetic evaluated by vm_compute",
+)
+
 NOT_YET = {}
 
 def main():
